@@ -456,3 +456,113 @@ class RegisterSimple(Contract):
     def covers(self, cx, ov, info):
         return [("registers", lambda k, p, s: z3.And(z3.BoolVal(k == "return"), z3.Not(self.remove))),
                 ("removes", lambda k, p, s: z3.And(z3.BoolVal(k == "return"), self.remove))]
+
+
+@register
+class RegisterList(Contract):
+    """ListenerItem._register_list (also _register_set) for an INTERMEDIATE container link: the two maintainers (handle_list on
+    the link, handle_list_items on '<link>_items') are always attached with 'extended' dispatch; the user's handler hears the
+    link only when it notifies ('.'); with ':' it is attached nowhere; every attachment carries the caller's remove flag; then
+    the rest of the chain is unregistered from (remove) / registered on (add, unless deferred) EVERY current item of the container
+    exactly once (duplicates counted)."""
+    path = PATH
+    qualname = "ListenerItem._register_list"
+    properties = ("C16",)
+    class_paths = (PATH,)
+    overloads = ("intermediate/notify", "intermediate/quiet")
+    assumptions = ("A-PY", "object._on_trait_change is the legacy attachment primitive (summary); the link's current value is a finite sequence of items")
+
+    def configure(self, cx, I, ov):
+        from vc.pyvc import source
+        consts = source.module_constants(PATH)
+        for n in ("DST_LISTENER", "SRC_LISTENER", "ANY_LISTENER"):
+            cx.module_globals[n] = VInt(consts[n])
+        cx.module_globals["INVALID_DESTINATION"] = cx.const("INVALID_DESTINATION")
+        self.consts = consts
+        cx.const("Undefined")
+        next_link(cx)
+        self.user, self.target, self.nxt = z3.Consts("user_handler item_target next_item", Val)
+        self.items = z3.Const("current_items", SeqV)
+        self.remove, self.deferred = z3.Bool("remove"), z3.Bool("deferred")
+        lg = lambda st, rec: st.gset("log", st.ghost.get("log", ()) + (rec,))
+        cx.elem_attrs["_on_trait_change"] = lambda I2, o, st, k: k(VFunc("opaque", name="_on_trait_change", apply=lambda I3, a, kw, s, kk: kk(NONE, lg(s, ("attach", tuple(a), dict(kw))))), st)
+
+        def dyn_getattr(I2, args, st, k):
+            r = VRef(I2.cx.new_oid())
+            return k(r, lg(st.put(r.oid, HObj("list", self.items)), ("read-link", args[1])))
+        cx.dyn_getattr_hook = dyn_getattr
+
+        class GetTarget(Contract):
+            path = PATH
+            qualname = "ListenerItem._get_target"
+
+            def summary(self_, I2, self_ref, args, kwargs, st, k):
+                return k(VElem(self.target), st)
+        cx.contracts = dict(cx.contracts)
+        cx.contracts[("ListenerItem", "_get_target")] = GetTarget()
+        cx.contracts[("ListenerBase", "_get_target")] = GetTarget()
+        seq = self.items
+
+        def inv(i, view, st):
+            pre, nxt = z3.Extract(seq, 0, i), z3.Extract(seq, 0, i + 1)
+            bag_axioms(cx, pre)
+            bag_axioms(cx, nxt)
+            cx.axioms.append(z3.Implies(z3.And(0 <= i, i < z3.Length(seq)), z3.And(z3.Extract(nxt, 0, i) == pre, nxt[i] == seq[i], z3.Length(nxt) == i + 1)))
+            cx.axioms.append(z3.Extract(seq, 0, z3.Length(seq)) == seq)
+            return [("one-walk-per-item-so-far", z3.If(self.remove, z3.And(st.ghost["unregistered"] == bag(pre), st.ghost["registered"] == ZERO),
+                                                       z3.And(st.ghost["registered"] == bag(pre), st.ghost["unregistered"] == ZERO)))]
+        cx.on_loop = loops.make_hook({0: loops.LoopSpec("for obj in getattr(object, name)", [], inv, ghost=["registered", "unregistered", "order_ok"])})
+
+    def setup(self, cx, I, ov):
+        st, _unused = listener_self(cx)
+        bag_axioms(cx, self.items)
+        self.name = z3.String("link_name")
+        self.obj = z3.Const("object", Val)
+        self_ref = VRef(cx.new_oid())
+        fields = {"next": VElem(self.nxt), "handler": VFunc("opaque", name="self.handler", apply=lambda I2, a, kw, s, kk: kk(VElem(self.user), s)),
+                  "notify": VBool(ov == "intermediate/notify"), "type": VInt(self.consts["SRC_LISTENER"]), "is_list_handler": VBool(z3.Bool("is_list_handler")),
+                  "dispatch": VStr(const="same"), "priority": VBool(z3.Bool("priority")), "deferred": VBool(self.deferred)}
+        st = st.put(self_ref.oid, HObj("obj", None, "ListenerItem", fields))
+        st = st.assume(self.user != cx.const("Undefined").t, self.nxt != cx.const("None").t)
+        self.self_ref = self_ref
+        return st, [self_ref, VElem(self.obj), VStr(self.name), VBool(self.remove)], {}, dict(witness={"remove": self.remove, "deferred": self.deferred},
+                                                                                              concretise=lambda m: dict(harness="observe", family="legacy", trials=80))
+
+    def post(self, cx, I, ov, info, kind, payload, st):
+        if kind == "raise":
+            return [("exc-free", z3.BoolVal(False), dict(exception="%s %r" % (payload.cname or payload.sym, payload.origin)))]
+        log = st.ghost.get("log", ())
+        att = [r for r in log if r[0] == "attach"]
+        items_name = z3.Concat(self.name, z3.StringVal("_items"))
+
+        def on(r, which):
+            a = r[1]
+            return len(a) == 2 and isinstance(a[1], VStr) and a[1].t is not None and z3.is_true(z3.simplify(a[1].t == which))
+
+        def maint(r, nm):
+            h = r[1][0] if r[1] else None
+            return isinstance(h, VFunc) and h.kind == "bound" and h.name == nm and h.self_ref.oid == self.self_ref.oid
+        users = [r for r in att if r[1] and isinstance(r[1][0], VElem) and r[1][0].t.eq(self.user)]
+        special = [r for r in att if maint(r, "handle_list_items_special")]
+        m_list = [r for r in att if maint(r, "handle_list") and on(r, self.name)]
+        m_items = [r for r in att if maint(r, "handle_list_items") and on(r, items_name)]
+        flags = z3.And(*[z3.And(r[2]["remove"].t == self.remove if isinstance(r[2].get("remove"), VBool) else z3.BoolVal(False),
+                                z3.BoolVal(isinstance(r[2].get("target"), VElem) and r[2]["target"].t.eq(self.target))) for r in att]) if att else z3.BoolVal(True)
+        ext = all(isinstance(r[2].get("dispatch"), VStr) and r[2]["dispatch"].const == "extended" for r in m_list + m_items)
+        out = [("post:every-attachment-carries-the-caller's-remove-flag-and-the-item's-target", flags),
+               ("post:both-maintainers-of-the-container-link-are-attached-once-with-extended-dispatch", z3.BoolVal(len(m_list) == 1 and len(m_items) == 1 and ext))]
+        if ov == "intermediate/quiet":
+            out.append(("post:a-quiet-link-(':')-reports-nothing-to-the-user-handler", z3.BoolVal(not users and not special)))
+        else:
+            out.append(("post:a-notifying-link-('.')-reports-the-link-to-the-user-handler-once", z3.BoolVal(len([r for r in users if on(r, self.name)]) == 1)))
+        out.append(("post:nothing-else-is-attached", z3.BoolVal(len(att) == len(m_list) + len(m_items) + len(users) + len(special))))
+        # the current items
+        out.append(("post:removal-unregisters-the-chain-from-every-current-item-once", z3.Implies(self.remove, z3.And(
+            st.ghost["unregistered"] == bag(self.items), st.ghost["registered"] == ZERO))))
+        out.append(("post:registration-registers-the-chain-on-every-current-item-once-unless-deferred", z3.Implies(z3.Not(self.remove), z3.And(
+            st.ghost["unregistered"] == ZERO, st.ghost["registered"] == z3.If(self.deferred, ZERO, bag(self.items))))))
+        return out
+
+    def covers(self, cx, ov, info):
+        return [("registers", lambda k, p, s: z3.And(z3.BoolVal(k == "return"), z3.Not(self.remove))),
+                ("removes", lambda k, p, s: z3.And(z3.BoolVal(k == "return"), self.remove))]
